@@ -526,6 +526,14 @@ class QueueWorld(object):
                     raise HarnessError('prestore failed: %r' % (pre.exception,))
                 self.on_write(pre.value, env, self.t0 + cfg.get('prestored_due', 0.0))
                 self.known.discard(self.sid(pre.value))       # the queue learns of it through load() / wait()
+            if cfg.get('damage_meta') is not None and cfg['backend'] == 'disk':
+                # crash-shaped damage: the k-th stored message has its envelope file but no meta file (the process died
+                # between the two writes).  It is lost to the queue; the OTHER messages must not be.
+                qid = sorted(self.ledger)[cfg['damage_meta']]
+                self.fs.files.pop('/q/meta/%s.meta' % qid, None)
+                self.ledger[qid]['outstanding'] = []
+                self.ledger[qid]['removed'] = True
+                self.ev('damaged', qid)
             if cfg['backend'] == 'redis' and cfg.get('prestored', 0) and not cfg.get('keep_announcements', True):
                 self.fake_redis.data.pop(b'slimta:queue', None)
             store = MonitoredStore(self, inner)
